@@ -643,7 +643,45 @@ class Engine:
         return [(st, ("continue",))]
 
     def stmt_While(self, s, st):
-        raise Unsupported("while loop", s)
+        """while cond: body  -- cut at the sidecar invariant (partial correctness; `i` of the LoopCtx is unused)."""
+        if s.orelse:
+            raise Unsupported("while/else", s)
+        ordinal = self.loop_ordinal(s)
+        inv = self.current.loops.get(ordinal) if self.current else None
+        if inv is None:
+            raise Unsupported("loop %d has no invariant in the sidecar" % ordinal, s)
+        from .contracts import LoopCtx
+
+        body_names = self.assigned_names(s.body)
+        fields = self.written_fields(s.body, st)
+        self._reassigned = {n.id for n in ast.walk(ast.Module(body=list(s.body), type_ignores=[])) if isinstance(n, ast.Name) and isinstance(n.ctx, (ast.Store, ast.Del))}
+        pre = st.fork()
+        pre_heap = st.heap_snapshot()
+        zero = z3.IntVal(0)
+        for (nm, f) in inv(LoopCtx(self, st, zero, zero, None, pre, pre_heap)):
+            st.oblige("%s.loop%d.init.%s" % (self.current.key, ordinal, nm), f, s.lineno)
+        out = []
+        it = st.fork()
+        self.havoc(it, body_names, fields, s)
+        for (nm, f) in inv(LoopCtx(self, it, zero, zero, None, pre, pre_heap)):
+            it.assume(f)
+        for (s1, cv) in self.ev(s.test, it):
+            if isinstance(cv, Raised):
+                out.append((s1, ("raise", cv)))
+                continue
+            t, f = self.branch(s1, self.truth(cv, s1, s), s)
+            if t is not None:
+                for (b1, o1) in self.exec_block(s.body, t):
+                    if o1 is None or o1[0] == "continue":
+                        for (nm, ff) in inv(LoopCtx(self, b1, zero, zero, None, pre, pre_heap)):
+                            b1.oblige("%s.loop%d.preserve.%s" % (self.current.key, ordinal, nm), ff, s.lineno)
+                    elif o1[0] == "break":
+                        out.append((b1, None))
+                    else:
+                        out.append((b1, o1))
+            if f is not None:
+                out.append((f, None))  # exit: invariant and negated condition hold
+        return out
 
     # ---- for loops
 
